@@ -1,7 +1,7 @@
 (** C06 — the receiver is total and rejects exactly the invalid events.
     Property theorems only; every proof is [exact <lemma>]. *)
 From TT Require Import Tunnel.ReceiverAbs Tunnel.ReceiverInv Tunnel.ReceiverHistInv Tunnel.ReceiverAbsProofs.
-From TT Require Import Judge.RecvOk Judge.RecvOkProofs.
+From TT Require Import Judge.Recv Judge.RecvOk Judge.RecvOkProofs Judge.RecvOkOfCorr Judge.C06.
 From stdpp Require Import gmap.
 Local Open Scope N_scope.
 
@@ -55,6 +55,21 @@ Theorem C06_judge_abstract_ok_on_model : forall steps,
   hist_scope hist_init steps ->
   ok_abstract ah_init steps (map iobs_of (hist_run hist_init steps)) = true.
 Proof. exact ok_abstract_model. Qed.
+
+(** ... and on the observations of ANY run that the correspondence check accepts: whenever the judge
+    finds model and implementation equal on a history in scope, the implementation's own observations
+    satisfy the executable statement, so a [PropFail] without a [Mismatch] is impossible. *)
+Theorem C06_judge_ok_whenever_corr : forall steps impl,
+  hist_scope hist_init steps -> corr_history steps impl = true -> ok_c06 snap_empty steps impl = true.
+Proof. exact ok_c06_of_corr. Qed.
+
+Theorem C06_judge_abstract_ok_whenever_corr : forall steps impl,
+  hist_scope hist_init steps -> corr_history steps impl = true -> ok_abstract ah_init steps impl = true.
+Proof. exact ok_abstract_of_corr. Qed.
+
+Theorem C06_judge_agrees_whenever_corr : forall steps impl,
+  hist_scope hist_init steps -> corr_history steps impl = true -> judge_c06 steps impl = Agree.
+Proof. exact judge_c06_agree_of_corr. Qed.
 
 (** Non-vacuity: the repaired F2 and F3 histories (restored without the local map) run without a
     panic or a rejection; a bogus event on the default receiver is rejected. *)
